@@ -794,6 +794,32 @@ def rule_dispatch(ctx):
     return res.finish(3)
 
 
+def rule_convpair(ctx):
+    """`rdistance`, `dist_to_rdist` and `rdist_to_dist` describe one reduced scale: the provided methods are the identity
+    scale (rdistance = distance).  An impl that overrides one of them leaves that scale; it then overrides all three, or
+    the ball tree's radii (rdist_to_dist of a reduced distance) and the range bounds (dist_to_rdist) are on two scales."""
+    res = RuleResult("R-C07-convpair", "an impl of Distance that overrides one of rdistance / dist_to_rdist / rdist_to_dist overrides all three")
+    F = ctx.facts()
+    impls = {}
+    for fn in F.all_fns():
+        d = fn["d"]
+        if d["krate"] == "linfa_nn" and (d.get("trait") or "").split("<")[0].split("::")[-1] == "Distance" and d.get("pk") != "trait" and "tests" not in d["path"]:
+            impls.setdefault(d.get("self_adt") or fn["inputs"][0], []).append(fn)
+    if len(impls) < 4:
+        res.missing_anchor("impls of Distance in linfa-nn (found %d)" % len(impls))
+    TRIO = ("rdistance", "dist_to_rdist", "rdist_to_dist")
+    for adt, fns in sorted(impls.items(), key=lambda kv: str(kv[0])):
+        names = {f["d"]["name"] for f in fns}
+        res.instance("%s : overrides %s" % (str(adt).split("::")[-1], sorted(names & set(TRIO))))
+        have = names & set(TRIO)
+        if have and have != set(TRIO):
+            miss = sorted(set(TRIO) - have)
+            res.violate("%s : reduced-scale-half-overridden:%s" % (str(adt).split("::")[-1], ",".join(miss)), "the impl overrides %s but not %s: the missing ones fall back to the identity conversion of the trait, so reduced distances and converted bounds are on different scales (the ball tree computes its radii with rdist_to_dist)" % (sorted(have), miss), fn_loc(fns[0]))
+        else:
+            res.ok()
+    return res.finish(4)
+
+
 def rule_capacity(ctx):
     """'k larger than the number of points returns all points': the requested count is any usize.  Memory reserved up
     front for the answer is sized by what can be returned (the number of points), never by the requested count itself -
@@ -837,4 +863,4 @@ def rule_capacity(ctx):
 def rules(tier):
     from . import precision
     return [rule_unit, rule_sib, rule_edge, rule_degree, rule_memorder, rule_cover, rule_direct,
-            precision.make_rule("R-C07-precision", lambda f: f["d"]["krate"] == "linfa_nn", 30, "linfa-nn"), rule_noint, rule_dispatch, rule_capacity]
+            precision.make_rule("R-C07-precision", lambda f: f["d"]["krate"] == "linfa_nn", 30, "linfa-nn"), rule_noint, rule_dispatch, rule_capacity, rule_convpair]
